@@ -35,6 +35,7 @@ SEEDS = {
     ('field', 'tbrmmdiagnostics.TBRMMDiagnostics', '_y_mean'): 1, ('field', 'tbrmmdiagnostics.TBRMMDiagnostics', '_x_mean'): 1,
     ('attr', 'self.geo_req_impact'): 1, ('attr', 'self.data.geo_share'): 0, ('attr', 'self.data._array'): 1, ('attr', 'self._array'): 1,
     ('attr', 'self.data._array_geo_share'): 0, ('attr', 'self._array_geo_share'): 0,
+    ('attr', 'self.data.df'): 1, ('attr', 'data.df'): 1, ('attr', 'self.df'): 1, ('attr', 'self._df'): 1,
     ('tbrmmdiagnostics.TBRMMDiagnostics.y@setter', 'value'): 1, ('tbrmmdiagnostics.TBRMMDiagnostics.x@setter', 'value'): 1,
     ('tbrmmdiagnostics.TBRMMDiagnostics.__init__', 'y'): 1, ('tbrmmdiagnostics.TBRMMDiagnostics.tbrfit', 'xt'): 1,
     ('tbrmmdiagnostics.TBRMMDiagnostics.tbrfit', 'yt'): 1, ('tbrmmdiagnostics.TBRMMDiagnostics.estimate_required_impact', 'corr'): 0,
